@@ -1239,9 +1239,13 @@ class _iterinfo(object):
                     for wday, n in rr._bynweekday:
                         if n < 0:
                             i = last+(n+1)*7
+                            if i < first:
+                                continue
                             i -= (self.wdaymask[i]-wday) % 7
                         else:
                             i = first+(n-1)*7
+                            if i > last:
+                                continue
                             i += (7-self.wdaymask[i]+wday) % 7
                         if first <= i <= last:
                             self.nwdaymask[i] = 1
@@ -1250,7 +1254,8 @@ class _iterinfo(object):
             self.eastermask = [0]*(self.yearlen+7)
             eyday = easter.easter(year).toordinal()-self.yearordinal
             for offset in rr._byeaster:
-                self.eastermask[eyday+offset] = 1
+                if 0 <= eyday+offset < len(self.eastermask):
+                    self.eastermask[eyday+offset] = 1
 
         self.lastyear = year
         self.lastmonth = month
